@@ -317,7 +317,7 @@ func c22Val(sdk *miscSDK, idx int, slot, kind, om, desc, desc2 string) (out stri
 		}
 		return m
 	}
-	ctx, cancel := context.WithTimeout(context.Background(), 10*time.Second)
+	ctx, cancel := context.WithTimeout(context.Background(), HxScale(30*time.Second))
 	defer cancel()
 	swamp := sdkname.New().Sanctuary("c22").Realm("val" + slot).Swamp("s" + strconv.Itoa(idx))
 	save := func(v any) error {
@@ -330,11 +330,17 @@ func c22Val(sdk *miscSDK, idx int, slot, kind, om, desc, desc2 string) (out stri
 	defer func() { _ = sdk.H.Destroy(context.Background(), swamp) }()
 	if err := save(val); err != nil {
 		fmt.Fprintf(os.Stderr, "c22 val %s %s %s: save: %v\n", slot, kind, desc, err)
+		if miscIsTimeout(err) {
+			return "timeout"
+		}
 		return "err"
 	}
 	if desc2 != "" {
 		if err := save(val2); err != nil {
 			fmt.Fprintf(os.Stderr, "c22 val %s %s %s: second save: %v\n", slot, kind, desc2, err)
+			if miscIsTimeout(err) {
+				return "timeout"
+			}
 			return "err"
 		}
 	}
@@ -347,6 +353,9 @@ func c22Val(sdk *miscSDK, idx int, slot, kind, om, desc, desc2 string) (out stri
 	}
 	if err != nil {
 		fmt.Fprintf(os.Stderr, "c22 val %s %s %s: read: %v\n", slot, kind, desc, err)
+		if miscIsTimeout(err) {
+			return "timeout"
+		}
 		return "err"
 	}
 	if slot != "v" && back.Elem().Field(xi+1).String() != "zv" {
